@@ -195,21 +195,44 @@ def string_array(cc, name, where):
     return re.findall(r'"([^"]*)"|\'(.)\'', m.group(1))
 
 
+def un_shape(lit, where):
+    """Parse the C string literal of a unary operator: "!", "-", identifier, or "(T1)(T2)…"."""
+    op = lit.strip()
+    if not (op.startswith('"') and op.endswith('"')):
+        raise ExtractFail(where, f"unary operator is not a string literal: {lit}")
+    op = op[1:-1]
+    if op == "!":
+        return ".lnot"
+    if op == "-":
+        return ".neg"
+    if re.fullmatch(r"[A-Za-z_]\w*", op):
+        return f"(.call {lean_str(op)})"
+    m = re.fullmatch(r"(?:\((?:U8|I8|U16|I16|U32|I32|U64|I64|F32|F64)\))+", op)
+    if m:
+        ts = re.findall(r"\((\w+)\)", op)
+        return "(.casts [" + ", ".join("." + t.lower() for t in ts) + "])"
+    raise ExtractFail(where, f"unary operator string {op!r} is neither !, -, an identifier nor a cast chain")
+
+
 def generate(repo):
     W = "c.c"
     cc = strip_comments(open(os.path.join(repo, "w2c2", "c.c")).read())
     oh = strip_comments(open(os.path.join(repo, "w2c2", "opcode.h")).read())
     oc = strip_comments(open(os.path.join(repo, "w2c2", "opcode.c")).read())
     out = ["-- GENERATED by tools/extract/gen_emit.py from /repo/w2c2/{c.c,opcode.h,opcode.c} — do not edit.",
-           "namespace W2c2Verif.Gen", ""]
+           "import W2c2Verif.CSem.Value", "namespace W2c2Verif.Gen", ""]
     out.append("inductive VT | i32 | i64 | f32 | f64 deriving DecidableEq, Repr, Inhabited")
+    out.append("")
+    out.append("/-- the operator string of a unary emitter, parsed: `!`, `-`, an identifier (call) or a cast chain (outermost first) -/")
+    out.append("inductive UnShape | lnot | neg | call (name : String) | casts (ts : List CTy)")
+    out.append("  deriving DecidableEq, Repr, Inhabited")
     out.append("")
     out.append("/-- which emitter of c.c a numeric opcode is dispatched to, with its arguments -/")
     out.append("inductive EmitKind")
     out.append("  | infix (rt : VT) (op : String) (assign : Bool)   -- wasmCWriteInfixBinaryExpr")
     out.append("  | signedInfix (op : String)                        -- wasmCWriteSignedInfixBinaryExpr")
     out.append("  | prefixBinary (rt : VT) (name : String)           -- wasmCWritePrefixBinaryExpr")
-    out.append("  | unary (rt : VT) (op : String)                    -- wasmCWriteUnaryExpr")
+    out.append("  | unary (rt : VT) (op : String) (shape : UnShape)  -- wasmCWriteUnaryExpr; shape = parse of `op`")
     out.append("  | shl | shrS | shrU                                -- the three shift emitters")
     out.append("  deriving DecidableEq, Repr, Inhabited")
     out.append("")
@@ -237,6 +260,7 @@ def generate(repo):
     out.append("def valueTypeNames : List String := [" + ", ".join(lean_str(x) for x in vtn) + "]")
     out.append("def signedTypeNames : List String := [" + ", ".join(lean_str(x) for x in stn) + "]")
     out.append("def shiftMaskStrings : List String := [" + ", ".join(lean_str(x) for x in sms) + "]")
+    out.append("def shiftMaskValues : List Nat := [" + ", ".join(str(int(x)) for x in sms) + "]")
     out.append("def valueTypeStackNames : List Char := [" + ", ".join("'%s'" % x for x in vsn) + "]")
     for pn in ("localNamePrefix", "globalNamePrefix", "memoryNamePrefix", "dataSegmentNamePrefix",
                "tableNamePrefix", "stackNamePrefix", "labelNamePrefix"):
@@ -264,7 +288,7 @@ def generate(repo):
         elif kind == "PrefixBinary":
             emit.append((label, f".prefixBinary .{VT[args[0]]} {args[1]}"))
         elif kind == "Unary":
-            emit.append((label, f".unary .{VT[args[0]]} {args[1]}"))
+            emit.append((label, f".unary .{VT[args[0]]} {args[1]} {un_shape(args[1], W)}"))
         elif kind == "ShiftLeft":
             emit.append((label, ".shl"))
         elif kind == "SignedShiftRight":
